@@ -266,4 +266,6 @@ func (q *Question) Clean() {
 		o.Clean()
 		return nil
 	})
+	CleanRecipients(q.Actor)
+	CleanRecipients(q.Target)
 }
